@@ -14,7 +14,7 @@ MANIFEST = {
             'formula, text with quotes/apostrophes, empty text, logicals, every error value, blanks) and sheet names drawn from a quoting alphabet are built from real .xlsx files '
             'and from dictionaries, exported with to_dict, serialised to JSON, re-imported with from_dict and re-exported three times: every cell of the re-imported model must equal '
             'the original model and the reference evaluator, and the JSON text must be identical from the first export on. Every C01 expression tree with <= 3 operators is '
-            'exported, re-parsed and re-exported: text and value must be stable.',
+            'exported, re-parsed and re-exported: text and value must be stable.' ' Later additions: raw workbooks (long literals, sheet-less and sheet-only keys, unbreakable and guarded cycles after finish(circular=True), chained names on the file and dictionary paths, an undefined name), nested reference operators among the re-parsed texts.',
     'note': 'Trusted: ref/wbeval.py for values. Text-that-looks-like-a-formula can only enter through string cells of a file (the dictionary format defines "=..." as a formula).',
 }
 RULE = 'case = (workbook, sheet renaming, constant kinds, path) or one formula tree; non-trivial = exported and re-imported; distinct = case key'
